@@ -628,7 +628,13 @@ fn gen_c14(t: &mut Tape, labels: &mut Vec<&'static str>) -> Option<CliCase> {
         argv.push("--num-threads".into());
         argv.push((1 + t.pick(16)).to_string());
     }
-    if t.chance(40) {
+    // a file whose requires are out of order: require sorting, verification and ranges are drawn more often, so that
+    // "verification rejects the re-ordered text" meets every other option
+    let has_req = labels.contains(&"file:requires-out-of-order");
+    if has_req && t.chance(200) && !spec.case.argv.iter().any(|a| a == "--sort-requires") {
+        argv.push("--sort-requires".into());
+    }
+    if t.chance(if has_req { 140 } else { 40 }) {
         argv.push("--verify".into());
         labels.push("verify");
     }
@@ -639,7 +645,7 @@ fn gen_c14(t: &mut Tape, labels: &mut Vec<&'static str>) -> Option<CliCase> {
         argv.push(["Json", "Standard", "json"][t.pick(3)].into());
         labels.push("output-format-in-write-mode");
     }
-    if t.chance(40) {
+    if t.chance(if has_req { 120 } else { 40 }) {
         // a formatting range (byte offsets, applied to every file): failing files still stay untouched
         let a = [0usize, 5, 30, 1000][t.pick(4)];
         let b = [0usize, 12, 60, 100_000][t.pick(4)];
